@@ -145,6 +145,7 @@ type builder struct {
 	signer       types.Signer
 	dropped      int // transactions the generator could not include (gas pool, nonce cap); deterministic
 	lastReceipts types.Receipts
+	nonces       map[int]uint64   // transactions included so far per sender index
 	hdrChain     *core.BlockChain // if set, BLOCKHASH during generation resolves ancestors through this chain
 }
 
@@ -153,7 +154,7 @@ func newBuilder(w *World) *builder {
 	engine := newEngine()
 	db, blocks, _ := core.GenerateChainWithGenesis(gspec, engine, 0, nil)
 	_ = blocks
-	b := &builder{w: w, gspec: gspec, engine: engine, db: db, signer: types.LatestSigner(gspec.Config)}
+	b := &builder{w: w, gspec: gspec, engine: engine, db: db, signer: types.LatestSigner(gspec.Config), nonces: map[int]uint64{}}
 	b.parent = gspec.ToBlock()
 	return b
 }
@@ -205,6 +206,7 @@ func (b *builder) next(i int) (*types.Block, types.Receipts) {
 				GasTipCap: new(big.Int).Mul(big.NewInt(int64(tp.Tip)), big.NewInt(params.GWei)),
 				Data:      tp.Data,
 			})
+			b.nonces[tp.From]++
 			if b.hdrChain != nil {
 				g.AddTxWithChain(b.hdrChain, tx)
 			} else {
@@ -229,11 +231,18 @@ type worldOpts struct {
 	maxContr   int
 	lowGasProb float64
 	blockhash  bool
+	pressure   bool // sometimes build worlds under block gas pressure (Amsterdam two-dimensional gas pool)
 }
 
 func genWorld(r *simcore.Rand, o worldOpts) *World {
 	w := &World{Fork: o.forks[r.Intn(len(o.forks))]}
 	w.GasLimit = []uint64{8_000_000, 30_000_000, 60_000_000, 100_000_000}[r.Pick(1, 3, 3, 2)]
+	// gas pressure: a block gas limit that a few transactions can exhaust, transactions whose gas limit is
+	// above the per-transaction execution cap (params.MaxTxGas) and transactions that burn all they get
+	pressure := o.pressure && r.Bool(0.3)
+	if pressure {
+		w.GasLimit = []uint64{30_000_000, 36_000_000, 45_000_000}[r.Intn(3)]
+	}
 	w.Senders = r.Range(1, 5)
 	nc := r.Range(2, o.maxContr)
 	nfresh := r.Range(1, 4)
@@ -325,7 +334,17 @@ func genWorld(r *simcore.Rand, o worldOpts) *World {
 				tx.Data = r.Bytes(r.Intn(64))
 				tx.Value = uint64(r.Intn(2))
 			}
+			if pressure && r.Bool(0.3) {
+				// burner: init code INVALID consumes all execution gas the transaction may use
+				tx = Tx{From: tx.From, Tip: tx.Tip, Data: HexBytes{opINVALID}}
+			}
 			switch {
+			case pressure && r.Bool(0.35):
+				tx.Gas = uint64(r.Range(16_000_000, 29_000_000)) // limit above params.MaxTxGas
+			case pressure && r.Bool(0.4):
+				tx.Gas = uint64(r.Range(5_000_000, 16_000_000))
+			case o.pressure && r.Bool(0.03):
+				tx.Gas = uint64(r.Range(16_000_000, 29_000_000))
 			case r.Bool(o.lowGasProb):
 				tx.Gas = uint64(r.Range(0, 60_000)) // often runs out of gas
 			case r.Bool(0.15):
